@@ -12,7 +12,7 @@ from __future__ import annotations
 import ast
 
 from .core import AnalysisError, loc, norm_src, walk_no_nested, dotted, str_const
-from .symx import Interp, Obj, Path, PList, NArr, Unsupported, explore, Abort
+from .symx import Interp, Obj, Path, PList, NArr, Unsupported, explore, Abort, MONTH
 from .rat import Rat, K
 from .nphooks import np_hook
 from . import c08
@@ -109,19 +109,42 @@ def gh(index, rep):
             rep.check(ok, rule, f"crops_produced{sl}[{arm}] = grown x (1 - greenhouse share), same months",
                       "outdoor output on this path is not the amount grown reduced by the greenhouse share of cropland for the same months "
                       "(cropland under greenhouses would be double-counted or lost)", loc=loc(OC, fn), detail=str(v))
-    # production = crops_produced x (1 - distribution waste)  (checked in C08.FORM as well)
-    foods = [c for c in walk_no_nested(fn) if isinstance(c, ast.Call) and dotted(c.func) == "Food"]
-    kw = {k.arg: norm_src(k.value) for k in foods[0].keywords} if len(foods) == 1 else {}
-    rep.check(kw.get("kcals") == "np.array(crops_produced) * (1 - self.CROP_WASTE_DISTRIBUTION / 100)", rule, "production = crops_produced x (1 - W)",
-              "the production series is not crops_produced x (1 - distribution waste)", loc=loc(OC, fn))
+    # production = crops_produced x (1 - distribution waste): evaluate the rest of the method with crops_produced opaque
+    def run_rest(it):
+        it.classes = {"OutdoorCrops": cls}
+
+        def hook(interp, d, a, kw, node):
+            if d == "Food":
+                return Obj(None, dict(kw), "food")
+            if d == "np.isnan":
+                return Obj(None, {}, "nan-test")
+            return np_hook(interp, d, a, kw, node)
+
+        it.call_hook = hook
+        obj = Obj(cls, {"CROP_WASTE_DISTRIBUTION": Rat.atom(("Wd",)), "OG_FRACTION_FAT": Rat.atom(("ff",)), "OG_FRACTION_PROTEIN": Rat.atom(("fp",))}, "self")
+        env = {"self": obj, "constants_for_params": Path(("c",)), "greenhouse_fraction_area": gfa, "crops_produced": Rat.atom(("CP",))}
+        rest = [st for st in fn.body[1:] if not isinstance(st, ast.Assert)]
+        it.exec_block(rest, env)
+        return obj
+
+    try:
+        rest_envs = explore(run_rest, month_classes=False)
+    except Unsupported as e:
+        raise AnalysisError(f"set_crop_production_minus_greenhouse_area (production part) outside the analysed fragment: {e}")
+    CP, Wd = Rat.atom(("CP",)), Rat.atom(("Wd",))
+    for _, dec, obj, it in rest_envs:
+        if isinstance(obj, Abort):
+            continue
+        prod = obj.attrs.get("production")
+        k = prod.attrs.get("kcals") if isinstance(prod, Obj) else None
+        ok = k is not None and it.to_rat(k) == CP * (Rat.const(1) - Wd / Rat.const(100))
+        rep.check(ok, rule, "production = crops_produced x (1 - W)", "the production series is not crops_produced x (1 - distribution waste)",
+                  loc=loc(OC, fn), detail=str(k))
     # the share passed in is the greenhouse object's share of the same run, the hd split uses the configured delays
     p = index.func(PARAMS, "Parameters.init_greenhouse_params")
     call = [c for c in walk_no_nested(p) if isinstance(c, ast.Call) and isinstance(c.func, ast.Attribute) and c.func.attr == "set_crop_production_minus_greenhouse_area"]
     rep.check(len(call) == 1 and norm_src(call[0].args[1]) == "greenhouses.greenhouse_fraction_area", rule, "share = this run's greenhouse share",
               "the greenhouse share passed to the crop model is not the Greenhouses object's greenhouse_fraction_area", loc=loc(PARAMS, p))
-    g = index.func(GH, "Greenhouses.get_greenhouse_area")
-    rep.check("self.greenhouse_fraction_area = greenhouse_area / self.TOTAL_CROP_AREA" in norm_src(g), rule, "share = greenhouse area / total cropland",
-              "the share is not greenhouse area / total crop area", loc=loc(GH, g))
     rep.require_min(rule, 5)
 
 
@@ -130,17 +153,97 @@ def reloc(index, rep):
     # per-month arms are checked in C08.LOOP (shared evaluation); here: the assertion and the expanded-area multiplier
     c08.loop_rule(index, rep, "C09.RELOC", "C09.RELOC")
     fn = index.func(OC, "OutdoorCrops.assign_increase_from_increased_cultivated_area")
-    t = norm_src(fn)
-    ok = "linspace = np.ones(self.NMONTHS)" in t and "increment = (max_value - 1) / (total_months - N)" in t and \
-        "linspace[i] = 1 + (i - N) * increment" in t and "linspace[total_months:] = max_value" in t and \
-        "self.KCALS_GROWN[i] = self.KCALS_GROWN[i] * linspace[i]" in t
-    rep.check(ok, rule, "expanded area: multiplier ramps 1 -> ratio", "the expanded-area multiplier is not a ramp from 1 to RATIO_INCREASED_CROP_AREA", loc=loc(OC, fn))
+    expanded_area(index, rep, fn, rule)
     cm = index.func(OC, "OutdoorCrops.calculate_monthly_production")
     guard = [s for s in walk_no_nested(cm) if isinstance(s, ast.If) and norm_src(s.test) == "constants_for_params['RATIO_INCREASED_CROP_AREA'] > 1"
              and "self.assign_increase_from_increased_cultivated_area(constants_for_params)" in norm_src(s)]
     rep.check(len(guard) == 1, rule, "expanded area applied only for ratio > 1 (multiplier >= 1)",
               "the expanded-area step can run with a ratio <= 1 (it would lower output)", loc=loc(OC, cm))
     rep.require_min(rule, 3)
+
+
+def expanded_area(index, rep, fn, rule):
+    """every value stored into the multiplier array is >= 1 given ratio > 1 and a ramp end after its start; the grown series is
+    multiplied (not replaced / divided) by that array, month by month"""
+    from .rat import rat_sign, Interval
+    # symbols: N = harvest duration, total = N + t (t > 0), max = 1 + e (e > 0), loop index i = N + k (k >= 0)
+    Ns, t_, e_, k_ = Rat.atom(("Nh",)), Rat.atom(("t",)), Rat.atom(("e",)), Rat.atom(("k",))
+    alias = {("c", "INITIAL_HARVEST_DURATION_IN_MONTHS"): Ns, ("c", "RATIO_INCREASED_CROP_AREA"): Rat.const(1) + e_,
+             ("c", "NUMBER_YEARS_TAKES_TO_REACH_INCREASED_AREA"): (Ns + t_) / Rat.const(12)}
+    it = Interp()
+    it.path_alias = alias
+    it.call_hook = np_hook
+    env = {"self": Obj(None, {"NMONTHS": Rat.atom("N"), "KCALS_GROWN": Path(("grown",))}, "self"), "constants_for_params": Path(("c",))}
+    arrays = {}
+    stores = []
+    INF = float("inf")
+    rtab = {("t",): Interval(0, INF, True, True), ("e",): Interval(0, INF, True, True), ("k",): Interval(0, INF, False, True),
+            ("Nh",): Interval(0, INF, False, True)}
+    ranges = rtab.get
+    try:
+        for st in fn.body:
+            if isinstance(st, ast.Expr) and isinstance(st.value, ast.Constant):
+                continue
+            if isinstance(st, ast.Assign) and isinstance(st.targets[0], ast.Name):
+                v = it.eval(st.value, env)
+                env[st.targets[0].id] = v
+                if isinstance(v, NArr):
+                    arrays[st.targets[0].id] = [it.to_rat(f) for f, n in v.segs]
+                continue
+            if isinstance(st, ast.Assign) and isinstance(st.targets[0], ast.Subscript) and isinstance(st.targets[0].value, ast.Name) \
+                    and st.targets[0].value.id in arrays:
+                stores.append((st.targets[0].value.id, it.to_rat(it.eval(st.value, env)), st))
+                continue
+            if isinstance(st, ast.For) and isinstance(st.target, ast.Name):
+                r = it.eval(st.iter, env)
+                lo = getattr(r, "lo", None)
+                env2 = dict(env)
+                if lo is not None and it.to_rat(lo) == Ns:
+                    env2[st.target.id] = Ns + k_
+                else:
+                    env2[st.target.id] = Rat.atom(MONTH)
+                for s2 in st.body:
+                    if isinstance(s2, ast.Assign) and isinstance(s2.targets[0], ast.Subscript):
+                        base = s2.targets[0].value
+                        if isinstance(base, ast.Name) and base.id in arrays:
+                            stores.append((base.id, it.to_rat(it.eval(s2.value, env2)), s2))
+                            continue
+                        if norm_src(base) == "self.KCALS_GROWN":
+                            idx = norm_src(s2.targets[0].slice)
+                            val = it.eval(s2.value, env2)
+                            stores.append(("KCALS_GROWN", (idx, val, env2), s2))
+                            continue
+                    raise Unsupported("statement in a loop of the expanded-area routine", s2)
+                continue
+            raise Unsupported("statement in the expanded-area routine", st)
+    except Unsupported as e:
+        raise AnalysisError(f"assign_increase_from_increased_cultivated_area outside the analysed fragment: {e}")
+    mult = [a for a in arrays if any(s[0] == a for s in stores)]
+    if len(mult) != 1:
+        raise AnalysisError("expanded area: multiplier array not identified")
+    m = mult[0]
+    init_ok = all(rat_sign(v - Rat.const(1), ranges) in ("0", "+", "+0") for v in arrays[m])
+    rep.check(init_ok, rule, "expanded area: multiplier starts at >= 1", "the expanded-area multiplier array is not initialised to values >= 1",
+              loc=loc(OC, fn))
+    n = 0
+    for name, val, st in stores:
+        if name != m:
+            continue
+        n += 1
+        sg = rat_sign(val - Rat.const(1), ranges)
+        rep.check(sg in ("0", "+", "+0"), rule, f"expanded area: stored multiplier >= 1 [{norm_src(st.targets[0])}]",
+                  f"a multiplier below 1 can be stored ({val}): expanding cropland would lower output", loc=loc(OC, st))
+    app = [s for s in stores if s[0] == "KCALS_GROWN"]
+    ok = len(app) == 1
+    if ok:
+        idx, val, env2 = app[0][1]
+        ok = isinstance(val, (Rat, Path)) and any(isinstance(a, K) and a.path[:1] == ("grown",) for a in it.to_rat(val).atoms())
+        # value = grown[i] x multiplier[i]: the multiplier's generic element is opaque here, so compare with the source expression
+        ok = ok and norm_src(app[0][2].value) in (f"self.KCALS_GROWN[{idx}] * {m}[{idx}]", f"{m}[{idx}] * self.KCALS_GROWN[{idx}]")
+    rep.check(ok, rule, "expanded area: grown[i] multiplied by multiplier[i]", "the grown series is not multiplied month by month by the multiplier",
+              loc=loc(OC, fn))
+    if n < 2:
+        raise AnalysisError("expanded area: fewer than two multiplier stores analysed")
 
 
 QUANT_CALLS = ("round", "int", "np.round", "np.around", "np.rint", "np.floor", "np.ceil", "np.trunc", "math.floor", "math.ceil", "np.fix")
